@@ -85,6 +85,33 @@ def exec : List Sexp → String
           | none => false
         strHex s ++ " rt=" ++ boolStr ok
     | _, _ => "bad-op"
+  | [.atom "rt-api", ctor] =>
+    -- a type built through the Go constructors: NewArrayType / NewHashType / NewCollectionType / NewStringType
+    let env := mkEnv []
+    let name (e : Sexp) : Option Ty := (strArg e).bind fun n => resolveName n
+    let built : Option Ty :=
+      match ctor with
+      | .list [.atom "array", e, lo, hi] => do
+        let t ← name e; let a ← lo.int?; let b ← hi.int?
+        pure (.array t a b)
+      | .list [.atom "hash", k, v, lo, hi] => do
+        let tk ← name k; let tv ← name v; let a ← lo.int?; let b ← hi.int?
+        pure (.hash tk tv a b)
+      | .list [.atom "collection", lo, hi] => do
+        let a ← lo.int?; let b ← hi.int?
+        pure (.collection a b)
+      | .list [.atom "string", lo, hi] => do
+        let a ← lo.int?; let b ← hi.int?
+        newStr a b
+      | _ => none
+    match built with
+    | none => "bad-op"
+    | some t =>
+      let s := printTy t
+      let ok := match parseType env (syms s) with
+        | some t2 => Ty.beq t2 t && printTy t2 == s
+        | none => false
+      strHex s ++ " rt=" ++ boolStr ok
   | [.atom "rt-int", n] =>
     match n.int? with
     | some i =>
